@@ -107,6 +107,18 @@ def cases(tier, seed):
                       'test/unit/builtins/test_path.py', 'test/unit/builtins/test_install.py',
                       'test/unit/builtins/test_find.py', 'test/unit/test_glob.py']
                      if tier == 'quick' else ['test/unit'])}
+    # set laws on names that extend one another by a character sorting below or above
+    # '/' (src, src.old, src-2, src gen, srcx, src/lib): string order != component order
+    setc = ['a', 'a.b', 'a b', 'a-1', 'a+', 'ab', 'a~', 'b']
+    pool = [''] + setc + ['%s/%s' % (x, y) for x in setc for y in setc] + \
+        ['a/a/%s' % x for x in setc] + ['/' + x for x in setc] + \
+        ['/%s/%s' % (x, y) for x in setc[:4] for y in setc[:4]] + ['C:/a', 'C:/a.b', 'C:/a/b']
+    for flavor in ('posix', 'windows'):
+        for root in ('srcdir', 'absolute', 'bindir', 'base:x/y:srcdir'):
+            for part in range(2 if tier == 'quick' else 8):
+                yield {'flavor': flavor, 'root': root, 'kind': 'sets', 'strings': pool,
+                       'setseed': '%d/sets/%s/%s/%d' % (seed, flavor, root, part),
+                       'sets': 250}
     maxn = 3 if tier == 'quick' else 4
     strings = list(all_strings(maxn))
     rng = core.rng_for(seed, 'c12')
